@@ -9,6 +9,10 @@ checks, not_app = [], []
 for p in props:
     pid = p["id"]
     c = cfg["checks"].get(pid)
+    if c:
+        frag = os.path.join(ROOT, "harness", c["pkg"], "check.json")
+        if os.path.exists(frag):
+            c = dict(c); c.update({k: v for k, v in json.load(open(frag)).items() if k != "claimed"})
     if c and c.get("claimed", True):
         d = dict(cfg["defaults"]); d.update(c)
         checks.append({
